@@ -538,9 +538,14 @@ def rule_guard(ctx):
         tr = Tracer(f).run()
         calls = [e for e in tr.events if e.kind == "call" and e.name not in ("branch", "from_residual")]
         tries = [e for e in tr.events if e.kind == "try" and as_term(e.val) is not None and as_term(e.val).is_call("validate_deserialization")]
+        from .c04 import dominated
         if calls and calls[0].name == "validate_deserialization" and tries:
             res.ok()
             res.sample({"entry": key, "first": "validate_deserialization()?"})
+        elif calls and calls[0].name == "validate_deserialization" and dominated(tr, calls[0])[0]:
+            # the same thing written out: map / and_then on the guard's result, or the work in the Ok arm of a match on it
+            res.ok()
+            res.sample({"entry": key, "first": "validate_deserialization(), " + dominated(tr, calls[0])[1]})
         else:
             res.violate("%s : tokenizer-guard-not-checked" % key, "the restored vectoriser's tokenizer can be reached without `validate_deserialization()?` first: a deserialised model with a custom tokenizer silently falls back to the regex tokenizer", fn_loc(f))
     # the guard is only worth something if it is raised whenever a function tokenizer is configured
